@@ -95,10 +95,15 @@ class TextPixelRegion(PointPixelRegion):
         artist : `~matplotlib.text.Text`
             A matplotlib Text object.
         """
+        from matplotlib import cbook
         from matplotlib.text import Text
 
+        # Text rejects a keyword given under two alias names (e.g., the
+        # stored "fontsize" becomes "size"), so normalize the names
+        # before the caller's keywords override the stored ones
         mpl_kwargs = self.visual.define_mpl_kwargs(self._mpl_artist)
-        mpl_kwargs.update(kwargs)
+        mpl_kwargs = cbook.normalize_kwargs(mpl_kwargs, Text)
+        mpl_kwargs.update(cbook.normalize_kwargs(kwargs, Text))
 
         return Text(self.center.x - origin[0], self.center.y - origin[1],
                     self.text, **mpl_kwargs)
